@@ -170,11 +170,21 @@ Struct(S, op) ==
               "pool", op.k2, NewComp(op.tpl, op.x0), New)
 
 \* the other processes' updates: +1 to x for every process invoked at the
-\* start of the tick whose compartment is still at the same place
+\* start of the tick
 BumpX(T, P) ==
   [b \in Branches |->
      [k \in DOMAIN T[b] |->
         IF <<b, k, "p">> \in P THEN [T[b][k] EXCEPT !.x = @ + 1] ELSE T[b][k]]]
+\* ... applied after the director's structural update: the update of a process
+\* follows its compartment where the same update batch has moved it (a
+\* compartment that is new at a place gets nothing from the process that was
+\* there before)
+BumpMoved(S, P) ==
+  [b \in Branches |->
+     [k \in DOMAIN S.tree[b] |->
+        LET o == S.origin[<<b, k>>]
+        IN IF o # New /\ <<o[1], o[2], "p">> \in P
+             THEN [S.tree[b][k] EXCEPT !.x = @ + 1] ELSE S.tree[b][k]]]
 \* the step phase: every step in the hierarchy adds 1 to its counter, a
 \* deriver as often as the engine has it registered
 Occurs(s, p) == Cardinality({i \in 1..Len(s) : s[i] = p})
@@ -209,7 +219,7 @@ Tick(op) ==
                 S0 == [tree |-> tree, eseq |-> eseq,
                        origin |-> [l \in Locs(tree) |-> l]]
                 S1 == Struct(S0, op)
-                T2 == BumpX(S1.tree, P)
+                T2 == BumpMoved(S1, P)
                 T3 == StepPhase(T2, S1.eseq)
             IN /\ NComps(S1.tree) <= MaxComps
                /\ tree' = T3
@@ -319,6 +329,9 @@ C09_Frame ==
 \* the named compartment's own process has added 1 before a step's operation
 \* is applied, and not yet when the (first-listed) director process' is
 Own(cmp) == IF lastmode' = "step" /\ "p" \in TplProcs(cmp.tpl) THEN 1 ELSE 0
+\* (a compartment that is moved keeps its process, whose update of this tick
+\*  arrives whoever issued the move)
+OwnMoved(cmp) == IF "p" \in TplProcs(cmp.tpl) THEN 1 ELSE 0
 C09_Effects ==
   [][~err' =>
       LET op == lastop' IN
@@ -352,12 +365,12 @@ C09_Effects ==
       /\ op.op = "moveupd" =>
            (~Has(tree', "agents", op.k) /\ Has(tree', "pool", op.k)
             /\ origin'[<<"pool", op.k>>] = <<"agents", op.k>>
-            /\ tree'["pool"][op.k].x = tree["agents"][op.k].x + 3 + Own(tree["agents"][op.k]))
+            /\ tree'["pool"][op.k].x = tree["agents"][op.k].x + 3 + OwnMoved(tree["agents"][op.k]))
       /\ op.op = "move" =>
            (~Has(tree', "agents", op.k) /\ Has(tree', "pool", op.k)
             /\ origin'[<<"pool", op.k>>] = <<"agents", op.k>>
             /\ tree'["pool"][op.k].tpl = tree["agents"][op.k].tpl
-            /\ tree'["pool"][op.k].x = tree["agents"][op.k].x + Own(tree["agents"][op.k]))
+            /\ tree'["pool"][op.k].x = tree["agents"][op.k].x + OwnMoved(tree["agents"][op.k]))
       /\ op.op = "moveback" =>
            (~Has(tree', "pool", op.k) /\ Has(tree', "agents", op.k)
             /\ origin'[<<"agents", op.k>>] = <<"pool", op.k>>)]_vars
